@@ -27,7 +27,7 @@ def main():
     npr = np.random.default_rng(a.seed + 12)
     res = O.Result("per gate kind x random placement/angles; random circuits x inverse_circuit; "
                    "random circuits x scale factors x folding methods; ZNE on a noiseless estimator")
-    reps = 12 if a.tier == "quick" else 150
+    reps = 40 if a.tier == "quick" else 150
     inv_json = os.path.join(a.work, "invtab.json")
     tab = json.load(open(inv_json)) if os.path.exists(inv_json) else None
     # ---- per kind
